@@ -1067,7 +1067,8 @@ def _find(req):
                 d = E("oMath", s_)
                 return {"reproduced": True, "target": "omml_to_latex.py::omml_to_latex", "check": bad[0],
                         "inputs": {"xml": xml_of(d), "tree": d}, "expected": bad[1], "observed": bad[2], "tried": tried}
-        which = "all"
+        # any failing input of the property confirms: the full executable contract, searched once per source state (cached)
+        return find({"obligation": ""})
     if which == "all":
         bad = greek_check(m)                     # every mapped symbol, alone and inside a run
         if bad is not None:
@@ -1077,7 +1078,17 @@ def _find(req):
         mm = validate_model(itertools.islice(scope(seed, budget=50), 0, 4000))
         if mm is not None:
             return {"reproduced": False, "note": "MODEL-MISMATCH (assumed library model contradicted natively): " + mm}
-    for w in ([which] if which == "all" else [which, "all"]):       # any failing input of the property confirms
+    if which != "all":
+        if not which.startswith("template."):          # (a template category has its own scope above; `check` has no per-tag part)
+            for d in scope(seed):
+                tried += 1
+                bad = check(fn, conv, d, which)
+                if bad is not None:
+                    return {"reproduced": True, "target": "omml_to_latex.py::omml_to_latex", "check": bad[0],
+                            "inputs": {"xml": xml_of(d), "tree": d}, "expected": bad[1], "observed": bad[2], "tried": tried}
+        # any failing input of the property confirms: the full executable contract, searched once per source state (cached)
+        return find({"obligation": ""})
+    for w in ["all"]:
         for d in scope(seed):
             tried += 1
             bad = check(fn, conv, d, w)
